@@ -5,7 +5,20 @@ from vf.selftest.mutants import MUTANTS
 VERIF = os.path.dirname(os.path.dirname(os.path.dirname(os.path.abspath(__file__))))
 
 
+def apply_edits(m, root):
+    for e in m["edits"]:
+        path = os.path.join(root, e[0])
+        s = open(path).read()
+        if e[1] not in s:
+            return False
+        s = s.replace(e[1], e[2]) if len(e) > 3 and e[3] == "all" else s.replace(e[1], e[2], 1)
+        open(path, "w").write(s)
+    return True
+
+
 def apply(m, root):
+    if "edits" in m:
+        return apply_edits(m, root)
     path = os.path.join(root, m["file"])
     s = open(path).read()
     if m.get("special") == "checksum_before":
@@ -31,7 +44,12 @@ def main():
     args = [a for a in sys.argv[1:] if not a.startswith("-")]
     run_tests = "--tests" in sys.argv
     all_props = "--all" in sys.argv
-    sel = [m for m in MUTANTS if not args or m["id"] in args]
+    benign = "--benign" in sys.argv
+    pool = MUTANTS
+    if benign:
+        from vf.selftest.benign import BENIGN
+        pool = BENIGN
+    sel = [m for m in pool if not args or m["id"] in args]
     summary = []
     for m in sel:
         root = tempfile.mkdtemp(prefix="pyab_mut_")
@@ -56,17 +74,21 @@ def main():
                 p = subprocess.run([os.path.join(VERIF, "check"), prop], env=env, capture_output=True, text=True)
                 viol = [l for l in p.stdout.splitlines() if l.startswith("VIOLATION")]
                 detail = ""
-                if p.returncode != 1:
+                if p.returncode != (0 if benign else 1):
                     detail = " | " + " / ".join(p.stdout.strip().splitlines()[-3:])[:300]
                 summary.append((m["id"], prop, "exit %d, %d violation lines, %.0fs%s" % (
                     p.returncode, len(viol), time.time() - t0, detail)))
         finally:
             shutil.rmtree(root, ignore_errors=True)
-        print(summary[-1])
+        print(summary[-1] if not benign else [x for x in summary if x[0] == m["id"]])
         sys.stdout.flush()
     print("\n== summary")
     for s in summary:
-        flag = "OK  " if s[2].startswith("exit 1") else ("    " if s[1] in ("tests", "-") else "MISS")
+        if benign:
+            flag = "OK  " if s[2].startswith("exit 0") else ("    " if s[1] in ("tests", "-") else
+                                                             ("INCONC" if s[2].startswith("exit 2") else "ALARM"))
+        else:
+            flag = "OK  " if s[2].startswith("exit 1") else ("    " if s[1] in ("tests", "-") else "MISS")
         print(flag, *s)
 
 
